@@ -141,15 +141,31 @@ def run_history(task: dict) -> dict:
             # creating a dataset where one exists is refused and changes nothing (C08)
             if task.get("create_again", True):
                 before = _snapshot_bytes(rp.root)
+                # the existing directory is named the way callers name it: absolutely, relative to the working
+                # directory, or below the home directory ("~/...", the spelling of the library's own quick start)
+                spelling = i % 3
+                home0 = os.environ.get("HOME")
                 try:
                     from sedpack.io import Dataset, Metadata
-                    Dataset.create(rp.root, Metadata(description="again"),
+                    if spelling == 1:
+                        where = Path(os.path.relpath(rp.root, os.getcwd()))
+                    elif spelling == 2:
+                        os.environ["HOME"] = str(rp.root.parent)
+                        where = Path("~") / rp.root.name
+                    else:
+                        where = rp.root
+                    Dataset.create(where, Metadata(description="again"),
                                    dsreal.structure(task["fmt"], task.get("compression", ""), 7, ("md5",)))
                     out["problems"].append(("create-again-accepted", f"step {i}: Dataset.create on an existing "
                                             f"dataset returned normally"))
                 except Exception as exc:  # pylint: disable=broad-except
                     if type(exc).__name__ != "DatasetExistsError":
                         out["problems"].append(("create-again-error", f"step {i}: {type(exc).__name__}"))
+                finally:
+                    if home0 is None:
+                        os.environ.pop("HOME", None)
+                    else:
+                        os.environ["HOME"] = home0
                 if _snapshot_bytes(rp.root) != before:
                     out["problems"].append(("create-again-changed", f"step {i}: a refused Dataset.create changed "
                                             f"files on disk"))
@@ -196,8 +212,74 @@ def shutdown_pool():
         _POOL = None
 
 
-def run_histories(tasks: list[dict], fn=run_history) -> list[dict]:
-    return list(pool().map(fn, tasks, chunksize=max(1, len(tasks) // 64)))
+class ProcessFrozen(Exception):
+    """A worker process stopped making progress altogether (not even its own watchdog threads ran)."""
+
+    def __init__(self, task, detail):
+        super().__init__(detail)
+        self.task = task
+        self.detail = detail
+
+
+FREEZE_LIMIT = 1500.0   # seconds a single task may run before its process is examined
+
+
+def run_histories(tasks: list[dict], fn=run_history, freeze_limit: float = FREEZE_LIMIT,
+                  frozen_ok: bool = False) -> list[dict]:
+    """Runs the tasks in the worker pool. Watchdogs inside a worker are threads; a pass that blocks while holding the
+    interpreter lock freezes them too, so the parent keeps its own clock: a task that has been running for
+    `freeze_limit` seconds is run once more, alone, in a fresh process with the same limit; if it freezes again the
+    result for that task is {"frozen": True, ...} (callers report it as a hang), otherwise its result is used."""
+    import time as _time
+    global _POOL  # pylint: disable=global-statement
+    futs = [pool().submit(fn, t) for t in tasks]
+    outs: list = [None] * len(tasks)
+    seen_running: dict[int, float] = {}
+    pending = set(range(len(tasks)))
+    suspects: list[int] = []
+    while pending:
+        done_now = [i for i in pending if futs[i].done()]
+        for i in done_now:
+            pending.discard(i)
+            try:
+                outs[i] = futs[i].result()
+            except cf.process.BrokenProcessPool:
+                suspects.append(i)
+            except cf.CancelledError:
+                suspects.append(i)
+        now = _time.time()
+        for i in pending:
+            if futs[i].running():
+                seen_running.setdefault(i, now)
+        stuck = [i for i in pending if i in seen_running and now - seen_running[i] > freeze_limit]
+        if stuck:
+            # the pool is beyond repair (its processes are killed); everything unfinished is examined alone
+            suspects += sorted(pending)
+            pending.clear()
+            shutdown_pool()
+            break
+        if not done_now:
+            _time.sleep(0.05)
+    n_frozen = 0
+    for n, i in enumerate(suspects):
+        if n_frozen >= 3:
+            # three confirmed witnesses are enough; the rest is left unexamined (and says so) to bound the time
+            outs[i] = {"skipped_after_freeze": True, "error": None}
+            continue
+        shutdown_pool()
+        _POOL = cf.ProcessPoolExecutor(max_workers=1, mp_context=mp.get_context("spawn"), initializer=_init_worker)
+        f = _POOL.submit(fn, tasks[i])
+        try:
+            outs[i] = f.result(timeout=freeze_limit if i in seen_running else 4 * freeze_limit)
+        except (cf.TimeoutError, cf.process.BrokenProcessPool):
+            n_frozen += 1
+            outs[i] = {"frozen": True, "error": None,
+                       "detail": f"the worker process did not finish the task within {int(freeze_limit)} s, neither "
+                                 f"in the pool nor alone in a fresh process, and its own watchdog threads did not fire"}
+        shutdown_pool()
+    if not frozen_ok and any(isinstance(o, dict) and (o.get("frozen") or o.get("skipped_after_freeze")) for o in outs):
+        raise MachineryError("a worker process froze: " + next(o["detail"] for o in outs if o.get("frozen")))  # noqa
+    return outs
 
 
 # ------------------------------------------------------------------------------------------------
@@ -239,3 +321,10 @@ def evaluate(ctx: Ctx, states: list[dict], tag: str, *, eps: int = 2, hashing: b
             bad.extend(out)
             ctx.count("eval_states_checked_by_tlc", res.distinct)
     return sorted(set(bad))
+
+
+def _sleep_task(task: dict) -> dict:
+    """Self-test helper for the freeze detection of run_histories."""
+    import time as _t
+    _t.sleep(task["s"])
+    return {"ok": True, "error": None}
